@@ -152,10 +152,8 @@ def check_batches(acc: Acc, n: int) -> None:
                 outcome = type(ex).__name__
             want = "ValueError" if (size > 1 and mname != "General") else "accepted"
             acc.cls(f"batch_{want}")
-            # a 1-element batch may be accepted or rejected (Proportional's in-place sum rejects it); the statement
-            # only demands that real batches are rejected by the vector-incapable methods and never mis-selected
-            if size == 1 and mname != "General" and outcome == "ValueError":
-                continue
+            # a 1-element array is a "unit scalar" for every method (Activation.assert_is_not_vector); real batches are
+            # rejected by the vector-incapable methods and never mis-selected
             if outcome != want:
                 acc.violate("batch", {"method": mname}, case, want, outcome,
                             f"{mname} with a batch of size {size}: {outcome}, expected {want}")
